@@ -1105,3 +1105,155 @@ Proof.
   rewrite E in Hb. rewrite step_classify, do_parse_mime in Hb by exact Hst.
   eapply mime_bad_code; eassumption.
 Qed.
+
+(* --- C62 for every segmentation (C21 + the one-shot facts) --- *)
+Theorem accepted_segments_within_limits relaxed limit : req_max_method + 2 <= limit ->
+  forall segs f rest, segs <> [] -> lenN (concat segs) <= npos ->
+  parse_segments relaxed limit segs = Done f rest -> accepted_within limit (concat segs) f rest.
+Proof.
+  intros Hl segs f rest Hne Hf H.
+  rewrite (req_parse_segmentation_independent relaxed limit Hl segs Hne Hf) in H.
+  eapply accepted_request_within_limits; eassumption.
+Qed.
+
+Theorem rejected_segments_codes relaxed limit : req_max_method + 2 <= limit ->
+  forall segs c f, segs <> [] -> lenN (concat segs) <= npos ->
+  parse_segments relaxed limit segs = Bad (c, f) -> reject_code c.
+Proof.
+  intros Hl segs c f Hne Hf H.
+  rewrite (req_parse_segmentation_independent relaxed limit Hl segs Hne Hf) in H.
+  eapply reject_codes; exact H.
+Qed.
+
+(* whatever has been delivered so far, a parser still waiting holds fewer than limit bytes:
+   ConnStateData::parseRequests()'s Must(inBuf.length() < Config.maxRequestHeaderSize) *)
+Theorem waiting_segments_below_limit relaxed limit : req_max_method + 2 <= limit ->
+  forall segs s keep, segs <> [] -> lenN (concat segs) <= npos ->
+  parse_segments relaxed limit segs = More s keep -> lenN keep < limit.
+Proof.
+  intros Hl segs s keep Hne Hf H.
+  rewrite (req_parse_segmentation_independent relaxed limit Hl segs Hne Hf) in H.
+  eapply more_below_limit; [exact Hl|exact inv_rst0|exact H].
+Qed.
+
+(* --- reply half: the reply_header_max_size decision --- *)
+Theorem resp_relay_within_limit limit fls buf n :
+  resp_head_decision limit fls buf = RHrelay n -> fls + n < limit /\ 0 < n /\ n <= lenN buf.
+Proof.
+  unfold resp_head_decision. destruct (headers_end buf) as [e fold] eqn:HE.
+  destruct (e =? 0) eqn:E0.
+  - destruct (limit <=? lenN buf + fls); intros H; inversion H.
+  - destruct (headers_end_found buf [] e fold HE ltac:(lia)) as [_ Hle].
+    destruct (limit <=? fls + e) eqn:L; intros H; inversion H; subst. lia.
+Qed.
+
+Theorem resp_decision_stable limit fls buf x :
+  (forall n, resp_head_decision limit fls buf = RHrelay n -> resp_head_decision limit fls (buf ++ x) = RHrelay n) /\
+  (resp_head_decision limit fls buf = RHtoobig -> resp_head_decision limit fls (buf ++ x) = RHtoobig) /\
+  (resp_head_decision limit fls buf = RHmore -> lenN buf + fls < limit).
+Proof.
+  unfold resp_head_decision. destruct (headers_end buf) as [e fold] eqn:HE.
+  destruct (e =? 0) eqn:E0.
+  - assert (e = 0) by lia. subst e.
+    destruct (limit <=? lenN buf + fls) eqn:L; (split; [intros n H; inversion H|split]); intros H; try inversion H.
+    + destruct (headers_end (buf ++ x)) as [e' fold'] eqn:HE'.
+      destruct (headers_end_later buf x fold e' fold' HE HE') as [K|K].
+      * subst e'. cbn [N.eqb]. rewrite lenN_app.
+        assert (limit <=? lenN buf + lenN x + fls = true) as -> by lia. reflexivity.
+      * assert (e' =? 0 = false) as -> by lia.
+        assert (limit <=? fls + e' = true) as -> by lia. reflexivity.
+    + lia.
+  - destruct (headers_end_found buf x e fold HE ltac:(lia)) as [HE' _]. rewrite HE', E0.
+    destruct (limit <=? fls + e); (split; [intros n H; inversion H; reflexivity|split]); intros H; inversion H.
+    reflexivity.
+Qed.
+
+(* --- an over-long request line with a well-formed method is answered 414 --- *)
+Lemma tchar_facts c : cs_TCHAR c = true -> c <> 10 /\ c <> 13 /\ c <> 32.
+Proof.
+  intros H. destruct (c <? 256) eqn:Hc.
+  - assert (Hlt : c < 256) by lia.
+    pose proof (forallb_bytes (fun c => negb (cs_TCHAR c) || (negb (c =? 10) && negb (c =? 13) && negb (c =? 32)))
+                  ltac:(vm_compute; reflexivity) c Hlt) as G.
+    cbv beta in G. rewrite H in G. cbn [negb orb] in G. lia.
+  - unfold cs_TCHAR, mem_tbl in H. rewrite tbl_get_out in H by (vm_compute lenN; lia). discriminate.
+Qed.
+
+Lemma delim_sp relaxed : delim relaxed 32 = true.
+Proof. destruct relaxed; vm_compute; reflexivity. Qed.
+
+Lemma forallb_span {A} (q : A -> bool) l : forallb q l = true -> span q l = (l, []).
+Proof.
+  induction l as [|a l IH]; cbn [forallb span]; [reflexivity|].
+  intros H. apply andb_prop in H. destruct H as [Ha Hl]. rewrite Ha, (IH Hl). reflexivity.
+Qed.
+
+Lemma span_takeN_run (set : cset) m y r n :
+  forallb set m = true -> lenN m <= n -> set y = false ->
+  fst (span set (takeN n (m ++ y :: r))) = m.
+Proof.
+  revert n; induction m as [|a m IH]; intros n Hm Hn Hy.
+  - cbn [app takeN]. destruct (n =? 0); [reflexivity|]. cbn [span]. rewrite Hy. reflexivity.
+  - cbn [forallb] in Hm. apply andb_prop in Hm. destruct Hm as [Ha Hm]. cbn [lenN] in Hn.
+    cbn [app takeN]. destruct (n =? 0) eqn:E; [lia|]. cbn [span]. rewrite Ha.
+    specialize (IH (N.pred n) Hm ltac:(lia) Hy).
+    destruct (span set (takeN (N.pred n) (m ++ y :: r))) as [p q]. cbn [fst] in *. now rewrite IH.
+Qed.
+
+Lemma tok_prefix_run (set : cset) limit m y r :
+  m <> [] -> forallb set m = true -> lenN m <= limit -> set y = false ->
+  tok_prefix set limit (m ++ y :: r) = Some (m, y :: r).
+Proof.
+  intros Hne Hm Hl Hy. rewrite tok_prefix_eq_spec. unfold prefix_spec.
+  rewrite (span_takeN_run set m y r limit Hm Hl Hy).
+  destruct m as [|a m]; [congruence|]. rewrite dropN_app_exact. reflexivity.
+Qed.
+
+Theorem overlong_line_414 relaxed limit m c u tail :
+  req_max_method + 2 <= limit ->
+  m <> [] -> forallb cs_TCHAR m = true -> lenN m <= req_max_method ->
+  delim relaxed c = false ->
+  forallb (fun b => negb (b =? 10)) (m ++ 32 :: c :: u) = true ->
+  limit <= lenN (m ++ 32 :: c :: u) -> fits ((m ++ 32 :: c :: u) ++ tail) ->
+  exists f, parse_whole relaxed limit ((m ++ 32 :: c :: u) ++ tail) = Bad (rq_sc_uri_too_long, f).
+Proof.
+  intros Hl Hne Hm Hlen Hc Hnolf Hbig Hf.
+  set (p := m ++ 32 :: c :: u) in *.
+  destruct m as [|a m'] eqn:Em; [congruence|].
+  assert (Ha : cs_TCHAR a = true) by (cbn [forallb] in Hm; apply andb_prop in Hm; tauto).
+  destruct (tchar_facts a Ha) as (Ha10 & Ha13 & _).
+  unfold parse_whole. rewrite step_classify, do_parse_none by reflexivity.
+  assert (Hv : none_view relaxed (p ++ tail) = p ++ tail).
+  { unfold none_view. destruct relaxed; [|reflexivity]. unfold p. cbn [app skip_garbage].
+    assert (a =? 10 = false) as -> by lia. assert (a =? 13 = false) as -> by lia. reflexivity. }
+  rewrite Hv. rewrite none_tail_first.
+  2:{ unfold p. cbn [app]. discriminate. }
+  2:{ intros _. unfold p. cbn [app]. intros K. inversion K. congruence. }
+  unfold do_first. cbn [r_stage set_stage stage_eqb].
+  (* no usable line *)
+  assert (Hp : find_line p = None).
+  { rewrite find_line_spec by (eapply fits_app_l; exact Hf).
+    assert (Hs : span not_lf p = (p, [])).
+    { apply forallb_span. rewrite forallb_forall in *. intros y Hy. rewrite not_lf_spec. apply Hnolf. exact Hy. }
+    rewrite Hs. destruct p; reflexivity. }
+  unfold first_line.
+  assert (Hparse : match find_line (p ++ tail) with
+                   | Some (line, rest) => if limit <=? lenN line then None else Some (line, rest)
+                   | None => None end = None).
+  { destruct (find_line (p ++ tail)) as [[line rest]|] eqn:FL2; [|reflexivity].
+    pose proof (find_line_none_ext _ _ _ _ Hf Hp FL2) as Hll.
+    assert (limit <=? lenN line = true) as -> by lia. reflexivity. }
+  rewrite Hparse.
+  assert (limit <=? lenN (p ++ tail) = true) as -> by (rewrite lenN_app; lia).
+  (* the blame rule *)
+  unfold blame, parse_method.
+  assert (Hpre : tok_prefix cs_TCHAR req_max_method (p ++ tail) = Some (a :: m', 32 :: c :: u ++ tail)).
+  { unfold p. rewrite <- app_assoc. cbn [app].
+    change (a :: m' ++ 32 :: c :: u ++ tail) with ((a :: m') ++ 32 :: (c :: u ++ tail)).
+    apply tok_prefix_run; [discriminate|exact Hm|exact Hlen|].
+    destruct (cs_TCHAR 32) eqn:K; [|reflexivity]. apply tchar_facts in K. lia. }
+  rewrite Hpre.
+  rewrite tok_skipAll_spec. cbn [span]. rewrite delim_sp, Hc. cbn [fst snd lenN].
+  cbn [skip_delimiter]. unfold skip_delimiter. cbn.
+  unfold classify. cbn. eexists. reflexivity.
+Qed.
